@@ -117,8 +117,7 @@ def run_harness(ctx, scenarios, label, timeout=900):
     return merged
 
 
-def judge(ctx, scenarios, tracefile, props, label='rt'):
-    n = sum(1 for _ in open(tracefile))
+def _validate(ctx, tracefile):
     r = ctx.validate('H2RoundTripTrace', tracefile)
     bad = {}
     for s in r.printed('BAD'):
@@ -128,11 +127,20 @@ def judge(ctx, scenarios, tracefile, props, label='rt'):
                 bad[int(m.group(1))] = json.loads(m.group(2))
             except Exception:
                 bad[int(m.group(1))] = [m.group(2)]
+    return bad
+
+
+def judge(ctx, scenarios, tracefile, props, label='rt', confirm=True):
+    n = sum(1 for _ in open(tracefile))
+    bad = _validate(ctx, tracefile)
     ctx.traces += n
     ctx.evaluations += n
     byid = {s['id']: s for s in scenarios}
-    percls, others = {}, {}
+    percls, others, conf = {}, {}, {}
     ctx.extra.setdefault('rejected_by_clause', {})
+
+    def rerun(scs, lab):
+        return _validate(ctx, run_harness(ctx, scs, lab))
     for t, clauses in sorted(bad.items()):
         for c in clauses:
             p = c.split(':', 1)[0]
@@ -142,10 +150,15 @@ def judge(ctx, scenarios, tracefile, props, label='rt'):
             if p in props or any(c.startswith(x) for x in props if ':' in x):
                 cls = c.split(' ')[0]
                 percls[c] = percls.get(c, 0) + 1
-                ctx.extra['rejected_by_clause'][c] = percls[c]
                 if percls[c] <= 2:
-                    ctx.report(cls, '%s: %s' % (label, c), {'kind': 'rt', 'clause': c, 'scenario': byid.get(t)})
-                elif cls not in getattr(ctx, '_known', {}):
+                    # the reactive driver has no lock-step: schedules vary, so a real race may need several tries
+                    ok = (not confirm) or cls in getattr(ctx, '_known', {}) or srvfam.confirmed(ctx, byid.get(t), c, rerun, tries=4)
+                    conf[c] = conf.get(c, False) or ok
+                    if ok:
+                        ctx.extra['rejected_by_clause'][c] = ctx.extra['rejected_by_clause'].get(c, 0) + 1
+                        ctx.report(cls, '%s: %s' % (label, c), {'kind': 'rt', 'clause': c, 'scenario': byid.get(t)})
+                elif conf.get(c) and cls not in getattr(ctx, '_known', {}):
+                    ctx.extra['rejected_by_clause'][c] = ctx.extra['rejected_by_clause'].get(c, 0) + 1
                     ctx.violations.append((c, '(see first two of this clause)'))
             else:
                 others[c.split(' ')[0]] = others.get(c.split(' ')[0], 0) + 1
@@ -176,4 +189,4 @@ def run(ctx, props, id_offset=2000000):
 def replay(ctx, finding, props):
     sc = dict(finding['scenario']); sc['id'] = 1
     tr = run_harness(ctx, [sc], 'rtreplay')
-    judge(ctx, [sc], tr, props)
+    judge(ctx, [sc], tr, props, confirm=False)
